@@ -7,8 +7,49 @@ continues with fresh decisions.  Every fresh decision costs one solver query:
 the side satisfied by the path's current model is feasible for free, the other
 side is checked with z3 and queued (with its model) when satisfiable.
 """
+import os
+import pickle
+import sys
 import time
 import z3
+
+
+# ---------------------------------------------------------------------------
+# job tokens shared by every process of a check (GNU-make style jobserver)
+_JOBS = None
+
+
+def jobserver_init(n_tokens):
+    """create the token pipe (call once, before worker processes are forked)"""
+    global _JOBS
+    r, w = os.pipe()
+    os.set_blocking(r, False)
+    os.write(w, b"x" * max(0, n_tokens))
+    _JOBS = (r, w)
+
+
+def jobserver_try_acquire():
+    if _JOBS is None:
+        return False
+    try:
+        return len(os.read(_JOBS[0], 1)) == 1
+    except (BlockingIOError, InterruptedError):
+        return False
+
+
+def jobserver_acquire_blocking():
+    if _JOBS is None:
+        return False
+    import select
+    while True:
+        select.select([_JOBS[0]], [], [])
+        if jobserver_try_acquire():
+            return True
+
+
+def jobserver_release():
+    if _JOBS is not None:
+        os.write(_JOBS[1], b"x")
 
 CHAR_BITS = 21
 BYTE_BITS = 8
@@ -40,6 +81,10 @@ class SolverUnknown(EngineSignal):
     pass
 
 
+class Truncated(EngineSignal):
+    """time budget exhausted / stop requested: the rest of this path is not explored"""
+
+
 class Deferred(EngineSignal):
     """Path handed over to another work item at the split depth."""
 
@@ -59,10 +104,11 @@ class Stats(object):
         self.spurious = 0
         self.max_prefix = 0
         self.learned_hits = 0
+        self.child_crashes = 0
 
     def merge(self, o):
         for k in ("paths", "paths_cut", "decisions", "queries", "solver_s", "unknown",
-                  "checks", "validated", "spurious"):
+                  "checks", "validated", "spurious", "learned_hits", "child_crashes"):
             setattr(self, k, getattr(self, k) + getattr(o, k))
         self.max_prefix = max(self.max_prefix, o.max_prefix)
         for d, od in ((self.cut_reasons, o.cut_reasons), (self.unsupported, o.unsupported)):
@@ -256,6 +302,10 @@ class PathState(object):
             ex.deferred.append(list(self.decisions))
             raise Deferred()
         st.decisions += 1
+        if ex.deadline is not None and time.time() > ex.deadline:
+            raise Truncated()
+        if ex.stop_flag:
+            raise Truncated()
         # learned implications: core (subset of the path literals) => this side infeasible
         ls = self.litset
         for pol in (True, False):
@@ -281,7 +331,15 @@ class PathState(object):
         other_ast = px.nb_ast if d else px.b_ast
         r = self._check(other_ast)
         if r == z3.sat:
-            ex.push_work(self.decisions + [not d], self.solver.model(), self.n_raw)
+            if ex.fork_mode:
+                m2 = self.solver.model()
+                if ex.fork_child():
+                    # child process: explores the other side from here on
+                    d = not d
+                    self.model = m2
+                    self.model_valid = True
+            else:
+                ex.push_work(self.decisions + [not d], self.solver.model(), self.n_raw)
         elif r == z3.unsat:
             core = ex.core_keys(other_ast)
             if core is not None:
@@ -337,6 +395,82 @@ class Explorer(object):
         self.solver.set("timeout", timeout_ms)
         self.ctx_ref = self.solver.ctx.ref()
         self.prefix_roots = prefix_roots
+        self.fork_mode = os.environ.get("PYSX_FORK", "0") == "1" and not prefix_roots and defer_depth is None
+        self.is_child = False
+        self.out_fd = None
+        self.children = []         # concurrent children still running: (pid, read fd)
+        self.holds_token = False
+        self.deadline = None
+        self.stop_flag = False
+        self.blob_hooks = []       # objects with reset_in_child() / dump() / merge(data)
+        self.n_forks = 0
+
+    # -- fork-based exploration -------------------------------------------
+    def fork_child(self):
+        """Fork at a two-sided branch.  Returns True in the child.  The child runs
+        concurrently when a job token is available, else the parent waits for it."""
+        rfd, wfd = os.pipe()
+        token = jobserver_try_acquire()
+        sys.stdout.flush()
+        sys.stderr.flush()
+        pid = os.fork()
+        if pid == 0:
+            os.close(rfd)
+            self.is_child = True
+            self.out_fd = wfd
+            self.children = []
+            self.holds_token = token
+            self.stats = Stats()
+            self.inconclusive = []
+            self._n_inconclusive = 0
+            self.truncated = False
+            for h in self.blob_hooks:
+                h.reset_in_child()
+            return True
+        os.close(wfd)
+        self.n_forks += 1
+        if token:
+            self.children.append((pid, rfd))
+            if len(self.children) > 200:
+                self._collect(*self.children.pop(0))
+        else:
+            self._collect(pid, rfd)
+        return False
+
+    def _collect(self, pid, rfd):
+        data = b""
+        with os.fdopen(rfd, "rb") as f:
+            data = f.read()
+        os.waitpid(pid, 0)
+        if not data:
+            self.note_inconclusive("a forked explorer died without reporting (pid %d)" % pid)
+            self.stats.child_crashes = getattr(self.stats, "child_crashes", 0) + 1
+            return
+        blob = pickle.loads(data)
+        self.stats.merge(blob["stats"])
+        for w in blob["inconclusive"]:
+            self.note_inconclusive(w)
+        self._n_inconclusive = self.n_inconclusive + blob["n_inconclusive"] - len(blob["inconclusive"])
+        self.truncated = self.truncated or blob["truncated"]
+        if blob["stop"]:
+            self.stop_flag = True
+        for h, d in zip(self.blob_hooks, blob["hooks"]):
+            h.merge(d)
+
+    def _finish_process(self):
+        while self.children:
+            self._collect(*self.children.pop())
+        if self.is_child:
+            try:
+                blob = {"stats": self.stats, "inconclusive": self.inconclusive, "n_inconclusive": self.n_inconclusive,
+                        "truncated": self.truncated, "stop": self.stop_flag, "hooks": [h.dump() for h in self.blob_hooks]}
+                data = pickle.dumps(blob)
+                with os.fdopen(self.out_fd, "wb") as f:
+                    f.write(data)
+            finally:
+                if self.holds_token:
+                    jobserver_release()
+                os._exit(0)
 
     def proxy(self, cond):
         cid = cond.get_id()
@@ -398,6 +532,53 @@ class Explorer(object):
         return getattr(self, "_n_inconclusive", 0)
 
     def run(self):
+        if self.fork_mode:
+            return self.run_fork()
+        return self.run_replay()
+
+    def run_fork(self):
+        global CUR
+        t0 = time.time()
+        if self.max_seconds is not None:
+            self.deadline = t0 + self.max_seconds
+        st = PathState(self, [], None, 0)
+        CUR = st
+        stop_exc = None
+        try:
+            try:
+                self.stats.paths += 1
+                self.fn(st)
+            except PathCut as c:
+                self.stats.paths_cut += 1
+                self.stats.cut_reasons[c.reason] = self.stats.cut_reasons.get(c.reason, 0) + 1
+            except Unsupported as u:
+                k = str(u.what)[:200]
+                self.stats.unsupported[k] = self.stats.unsupported.get(k, 0) + 1
+                self.note_inconclusive("unsupported: " + k)
+            except SolverUnknown:
+                self.note_inconclusive("solver unknown")
+            except Truncated:
+                self.truncated = True
+                self.note_inconclusive("truncated by time budget / stop")
+            except EngineSignal as e:
+                # harness-level stop (e.g. enough violations): remember, stop the siblings
+                self.stop_flag = True
+                stop_exc = e
+            except BaseException:
+                if self.is_child:
+                    import traceback
+                    self.note_inconclusive("exception in forked explorer: " + traceback.format_exc()[-600:])
+                    self.stats.child_crashes = getattr(self.stats, "child_crashes", 0) + 1
+                else:
+                    raise
+        finally:
+            self._finish_process()      # children never return from here
+        self.wall = time.time() - t0
+        if stop_exc is not None:
+            raise stop_exc
+        return self
+
+    def run_replay(self):
         t0 = time.time()
         if self.prefix_roots:
             self.work = [(list(p), None, 0) for p in self.prefix_roots]
